@@ -500,6 +500,8 @@ def judgeCmd (s : JState) (cmd : String) (impl : List String) : JState × List S
       match nextLine r with
       | some (fl, r2) =>
         let s2 := match toks fl with
+          | ["file", "changed"] => s1.flag [s!"save-file-changed-by-failed-save after {l}"]
+          | ["file", "unchanged"] => s1
           | ["file", hex] => if l == "so 1" then s1.flag (fileChecks s.live (z != "0") hex) else s1
           | _ => s1
         match r2 with
